@@ -64,3 +64,8 @@ Fixpoint nodupb (l : list N) : bool :=
 (* an alphabet for w-bit digits: exactly 2^w distinct DNS-safe characters *)
 Definition good_alpha (w : nat) (alpha : list N) : bool :=
   Nat.eqb (List.length alpha) (2 ^ w) && nodupb alpha && forallb dns_safeb alpha.
+
+(* reverse in linear time (List.rev appends at the end at every step; the extracted models run on inputs of several thousand octets) *)
+Definition frev {A} (l : list A) : list A := rev_append l [].
+Lemma frev_rev {A} (l : list A) : frev l = rev l.
+Proof. unfold frev. symmetry. apply rev_alt. Qed.
